@@ -278,6 +278,14 @@ func (l *leanFile) pairList(def string, xs [][2]string) {
 	fmt.Fprintf(&l.b, "def %s : List (String × String) := [%s]\n\n", def, strings.Join(qs, ",\n  "))
 }
 
+func (l *leanFile) tripleList(def string, xs [][3]string) {
+	qs := make([]string, len(xs))
+	for i, x := range xs {
+		qs[i] = "(" + strconv.Quote(x[0]) + ", " + strconv.Quote(x[1]) + ", " + strconv.Quote(x[2]) + ")"
+	}
+	fmt.Fprintf(&l.b, "def %s : List (String × String × String) := [%s]\n\n", def, strings.Join(qs, ",\n  "))
+}
+
 func (l *leanFile) natPairs(def string, xs []kv) {
 	qs := make([]string, len(xs))
 	for i, x := range xs {
